@@ -50,6 +50,7 @@ class _Clock:
 
 class Check(CheckBase):
     property_id = 'C16'
+    evaluations_counter = 'requests_verified'
     level = 'exploration'
     rule = ('S3Compatible and S3 backend objects talk to a fake S3 (httpx transport) that recomputes AWS Signature V4 for EVERY '
             'request from the wire bytes only (raw path and query as sent, header list as sent, body chunks as sent): the path is '
